@@ -39,8 +39,6 @@ ASSUMPTIONS = ['which static kind a composed view type gets is decided by C++ me
                'kind combinations the unchanged library cannot compile are excluded (harness/c11_uncompilable.txt)']
 PARTIAL = ['no Lean transfer function (static knowledge checked against run-time objects and NumPy only): repeat, pad, cumsum, roll, flip, moveaxis, take, '
            'slice, atleast_nd, scalar multiply, where, matmul; eye/tri/pooling/resize/sliding_window/outer/compress are not generated at all',
-           'squeeze_static_sound excludes clipped-shape operands and ufunc2_static_sound excludes clipped x run-time operand pairs: there the real '
-           'metafunctions are unsound (known findings C11.squeeze-clipped, C11.broadcast-clipped-vs-runtime, counterexample theorems)',
            'the eval resolver (eval.hpp:706-879) is not modelled in Lean: that the chosen container has room is checked per instance '
            '(result shape and every element compared with the view), and follows from result_buffer_fits only for buffers sized by bounded_size']
 MANIFEST = dict(
@@ -54,9 +52,9 @@ MANIFEST = dict(
           'run-time shape the type admits they must agree with the object and with NumPy, and eval must return the whole result.'),
     note=('Lean kernel + propext/Classical.choice/Quot.sound. The C++ template level itself is not verified: the transfer functions are a hand-written mirror, '
           'compared with the compiler-computed traits on every generated program; 13 further view functions (repeat, pad, cumsum, roll, flip, moveaxis, take, slice, '
-          'atleast_nd, scalar multiply, where, matmul) are checked against the run-time objects and NumPy only (no Lean transfer). Two unsound kind '
-          'combinations of the unchanged library are excluded from the theorems and listed as known findings with counterexample theorems; a third '
-          '(take over a clipped source) is outside the Lean model. Kind combinations that do not compile are excluded (harness/c11_uncompilable.txt).'),
+          'atleast_nd, scalar multiply, where, matmul) are checked against the run-time objects and NumPy only (no Lean transfer). Three metafunctions '
+          'that read the maxima of a clipped shape as its extents (broadcast_shape, shape_take, shape_squeeze) were found by this check and repaired '
+          '(fixes/C11-*.diff); the transfer functions mirror the repaired code. Kind combinations that do not compile are excluded (harness/c11_uncompilable.txt).'),
     technique='Lean 4 soundness proof of an abstract interpretation + differential correspondence on generated kind-matrix translation units')
 
 _cache = {}
@@ -195,9 +193,6 @@ def gen(tier, rng):
             if rargs:
                 mreq += ' rargs=' + ';'.join(G.fmt(x) for x in rargs)
             c = Case(req, home[p.id], dom=True, oracle=oracle, model=modelled, mreq=mreq, nontrivial=(T != nominal or p.depth >= 2), tags=tags, cmp=cmp)
-            # inside a known-unsound class the Lean transfer merely mirrors the code: the oracle alone judges
-            if any(f(c) for f in KNOWN_PREDICATES.values()):
-                c.dom = False
             yield c
 
 
@@ -229,105 +224,6 @@ def coverage_extra(cases, tier):
             'view_data_equal_numpy': '%d/%d' % (agree, total), 'uncompilable_programs_excluded': len(G.load_skip())}
 
 
-# ------------------------------------------------------------------------------------------------
-# known findings: classes of PROGRAMS (decided from the expression text in the request)
-# ------------------------------------------------------------------------------------------------
-
-def parse_expr(t):
-    """'add(squeeze(cl[2,1,3]),dy[3];ct.0)' -> ('add', [('squeeze', [('leaf','cl',(2,1,3))], ''), ('leaf','dy',(3,))], 'ct.0')"""
-    pos = [0]
-
-    def node():
-        m = re.match(r'[a-z_0-9]+', t[pos[0]:])
-        name = m.group(0); pos[0] += len(name)
-        if t[pos[0]] == '[':
-            j = t.index(']', pos[0])
-            P = tuple(int(x) for x in t[pos[0] + 1:j].split(',') if x not in ('', '[', ']'))
-            pos[0] = j + 1
-            return ('leaf', name, P)
-        assert t[pos[0]] == '('
-        pos[0] += 1
-        kids = [node()]
-        while t[pos[0]] == ',':
-            pos[0] += 1
-            kids.append(node())
-        args = ''
-        if t[pos[0]] == ';':
-            j = t.index(')', pos[0])
-            args = t[pos[0] + 1:j]; pos[0] = j
-        assert t[pos[0]] == ')'
-        pos[0] += 1
-        return (name, kids, args)
-    return node()
-
-
-def _expr(case):
-    m = re.search(r' e=(\S+)', case.req)
-    return parse_expr(m.group(1)) if m else None
-
-
-CLIPPED = ('cl', 'cld', 'cla')
-RUNTIME_SHAPED = ('fd', 'fdf', 'fdh', 'bd', 'dy')
-
-
-def leaves_of(n):
-    if n[0] == 'leaf':
-        return [n]
-    return [l for k in n[1] for l in leaves_of(k)]
-
-
-def subtrees(n):
-    yield n
-    if n[0] != 'leaf':
-        for k in n[1]:
-            yield from subtrees(k)
-
-
-def has_clipped_leaf(n):
-    """the subtree's shape knowledge can be of clipped kind: a clipped-shape leaf or a clipped (`cl.`) shape argument below"""
-    return any(l[1] in CLIPPED for l in leaves_of(n)) or any(m[0] != 'leaf' and m[2].startswith('cl.') for m in subtrees(n))
-
-
-def squeeze_over_clipped(case):
-    """a squeeze whose operand is built over a clipped-shape leaf"""
-    e = _expr(case)
-    return e is not None and any(n[0] == 'squeeze' and has_clipped_leaf(n) for n in subtrees(e))
-
-
-def take_over_clipped(case):
-    e = _expr(case)
-    return e is not None and any(n[0] == 'take' and has_clipped_leaf(n) for n in subtrees(e))
-
-
-STATIC_KEEPING = {'transpose': ('none', 'ct.'), 'reshape': ('ct.', 'cl.'), 'flatten': ('',), 'broadcast_to': ('ct.', 'cl.'), 'negative': ('',),
-                  'expand_dims': ('cts.',), 'squeeze': ('',), 'sum': ('cts.', 'ctt.'), 'tile': ('ct.',), 'add': ('',), 'concatenate': ('cts.', 'none')}
-
-
-def statically_shaped(n):
-    """the shape TYPE of the subtree is constant or clipped (approximation from the expression: constant/clipped leaves
-    through operations with compile-time arguments that keep that knowledge)"""
-    if n[0] == 'leaf':
-        return n[1] in ('cs', 'fx') + CLIPPED
-    keep = STATIC_KEEPING.get(n[0])
-    if keep is None or not any(n[2].startswith(k) if k else True for k in keep):
-        return False
-    return all(statically_shaped(k) for k in n[1])
-
-
-def broadcast_clipped_with_runtime(case):
-    """a broadcasting binary view (add / where) with one operand over a clipped-shape source and the other operand's extents
-    only known at run time (a run-time-shaped leaf, or a view whose shape type is not constant/clipped)"""
-    e = _expr(case)
-    if e is None:
-        return False
-    for n in subtrees(e):
-        if n[0] in ('add', 'where') and len(n[1]) == 2:
-            a, b = n[1]
-            for x, y in ((a, b), (b, a)):
-                if has_clipped_leaf(x) and not statically_shaped(y):
-                    return True
-    return False
-
-
-KNOWN_PREDICATES = {'squeeze_over_clipped': squeeze_over_clipped, 'take_over_clipped': take_over_clipped,
-                    'broadcast_clipped_with_runtime': broadcast_clipped_with_runtime}
+# the three findings of round 1 (broadcast_shape / shape_take / shape_squeeze over clipped shapes) are repaired in /repo
+# (fixes/C11-*.diff): no known-finding class is left for this property
+KNOWN_PREDICATES = {}
